@@ -32,7 +32,7 @@ ASSUMPTIONS = [
     "abstracted conditions (_prob symbols) are outside the oracle: those stages are counted inconclusive",
 ]
 TIMEOUT = {"quick": 18, "thorough": 120}
-DEADLINE = {"quick": 80, "thorough": 1500}
+DEADLINE = {"quick": 80, "thorough": 1000}
 MIN_DECIDING = {"quick": 40, "thorough": 300}
 NCASES = {"quick": 170, "thorough": 4000}
 CONFIGS = [{}, {"cond2arithm": True}, {"transform_categoricals": True}, {"cond2arithm": True, "transform_categoricals": True}]
